@@ -409,8 +409,8 @@ class C07:
     rule = (
         "cases = every documented redirect spelling (44) x stage kind {external process, alias writing to its handles, alias using print(), alias returning (out, err, rc), unthreadable alias} "
         "x capture form {bare, $[], ![], $(), !(), @$()} as a single redirect, plus seeded pipelines of 1-4 stages with operator combinations (o>+e>, e>o+>, o>e+e>, < with everything, o> f e>p |, a>p |), "
-        "existing and missing targets, $THREAD_SUBPROCS on/off, and conflicting / malformed combinations; judged = multiset of places (file, stdin of stage j, capture, .err, terminal fd 1 / fd 2) of every "
-        "<Oi>/<Ei>/<OLD>/<IN> tag vs the routing model; distinct_nontrivial = distinct (stage kinds, operator spellings, form, target states)"
+        "existing and missing targets, $THREAD_SUBPROCS on/off, and conflicting / malformed combinations (incl. output targets expanding to several words); every stage writes <Oi> to stdout, <Ei> to stderr, then <Qi> to stdout again; judged = multiset of places (file, stdin of stage j, capture, .err, terminal fd 1 / fd 2) of every "
+        "<Oi>/<Qi>/<Ei>/<OLD>/<IN> tag vs the routing model; distinct_nontrivial = distinct (stage kinds, operator spellings, form, target states)"
     )
     assumptions = [
         "operator table hard-coded from docs/tutorial.rst; unredirected stderr may land on terminal fd 2 or, under !(), in the object's .err (the property does not say which)",
